@@ -61,6 +61,7 @@ type Tracer struct {
 	events    []TraceEvent
 	pre       []*smt.Term
 	nvar      int
+	tag       string // suffix that makes register names of different events at one position distinct
 	lastEv    int
 	held      []int
 	inSummary bool
@@ -99,7 +100,7 @@ func (tr *Tracer) fresh(ex *Exec, w int) *smt.Term {
 		tr.lastEv, tr.nvar = len(tr.events), 0
 	}
 	tr.nvar++
-	return ex.P.newInput(fmt.Sprintf("T%d.e%d.%d", tr.Thread, len(tr.events), tr.nvar), smt.BV(w))
+	return ex.P.newInput(fmt.Sprintf("T%d.e%d.%d%sw%d", tr.Thread, len(tr.events), tr.nvar, tr.tag, w), smt.BV(w))
 }
 
 func (tr *Tracer) emit(ex *Exec, e TraceEvent) {
@@ -340,7 +341,9 @@ func (ex *Exec) trLoad(addr *Value) (Value, bool) {
 	if !ok {
 		return nil, false
 	}
+	ex.tr.tag = fmt.Sprintf("c%d", ci.id)
 	r := ex.tr.fresh(ex, regW)
+	ex.tr.tag = ""
 	ex.tr.emit(ex, TraceEvent{Kind: "load", Obj: rc(uint64(ci.id)), Res: []*smt.Term{r}})
 	switch ci.kind {
 	case "chan":
